@@ -906,3 +906,12 @@ def copy_returns_a_datatype(ctx):
         bad = can_end_without_value(cfg, f.node)
         ctx.check(not bad, f'{f.qualname}:returns the copy', f.node, 'every normal exit returns an object',
                   f'{ci.name}.copy() can return None: Parameter.clone / DataType.copy callers then hold no datatype', f)
+
+
+@rule('C03.R1f', min_instances=3)
+def a_rebuilt_upper_limit_of_zero_stays_zero(ctx):
+    """shared with C01.R7f: get_datatype() / copy() hand the exported limits back to the constructors of the sized types - an upper
+    size limit is taken as "not given" by identity only; `maxsize or minsize or fallback` rebuilds `maxchars: 0` as unlimited and
+    `maxlen: 0` as 100, the rebuilt type is not equivalent to the exported one"""
+    from sa.rules import c01
+    c01.an_upper_limit_of_zero_is_a_given_limit(ctx)
